@@ -31,6 +31,8 @@ PROPS = {
             {"stream": "arith", "ops": ARITH_OPS, "n": {"quick": 300, "thorough": 4000}, "args": ["-extreme"]},
             # the same oracle judges every outcome of the alias stream (aliased calls, other destination pre-states)
             {"stream": "alias", "ops": ARITH_OPS, "n": {"quick": 5000, "thorough": 80000}, "projections": []},
+            # context-aware parsing: the denoted value of a grammatical string, rounded once (C01_value_parse_partial)
+            {"stream": "strings", "n": {"quick": 8000, "thorough": 120000}},
         ],
         "projections": ["value", "err"],
         "oracle_tags": ["C01"],
@@ -72,6 +74,8 @@ PROPS = {
         "theorem_prefixes": ["C09_", "GenTie_"],
         "streams": [
             {"stream": "arith", "ops": ["quantize", "rtie", "rtiv", "ceil", "floor"], "n": {"quick": 40000, "thorough": 600000}},
+            # exponents at the package limits and exponent gaps of exactly 99999/100000 (100000-digit coefficients)
+            {"stream": "arith", "ops": ["quantize", "rtie", "rtiv", "ceil", "floor"], "n": {"quick": 150, "thorough": 2000}, "args": ["-extreme"]},
         ],
         "projections": ["value", "repr", "flags", "err"],
         "oracle_tags": ["C09"],
@@ -153,11 +157,11 @@ PROPS.update({
     },
     "C11": {
         "level": "other",
-        "lean_modules": ["ApdVerif.Props.C11", "ApdVerif.Props.C11Settle"],
+        "lean_modules": ["ApdVerif.Props.C11", "ApdVerif.Props.C11Settle", "ApdVerif.Props.C11Sqrt"],
         "streams": [{"stream": "roots", "n": {"quick": 20000, "thorough": 400000}}],
         "projections": ["value", "repr", "flags", "err"],
         "oracle_tags": ["C11"],
-        "explanation": "partial: proved for all inputs - the integer-root oracles (isqrt, icbrt), that specSqrt is the half-even nearest multiple of the quantum stated on squares, the Cbrt ulp test, perfect-cube detection, termination of Sqrt's precision loop, special operands. NOT proved: accuracy of the Newton iterates (false for Sqrt on this tree: finding F2). The executable models of Sqrt and Cbrt (no floats involved) are correspondence-checked and every generated case is judged by the proved oracles; generators aim at roots next to rounding boundaries",
+        "explanation": "Sqrt: correctness theorem for every operand (C11_sqrt_correct_partial: Newton error analysis over the reals + model loop + settling step + roundings = specSqrt; side condition workp+6 <= 100000+e/2 proved necessary by C11_sqrt_sys). Also proved: integer-root oracles, specSqrt is the half-even nearest multiple of the quantum stated on squares, the Cbrt ulp test, perfect-cube detection, loop termination, special operands. NOT proved: no Inexact on exactly representable roots; Cbrt one-ulp accuracy. The executable models of Sqrt and Cbrt are correspondence-checked and every generated case is judged by the proved oracles; generators aim at roots next to rounding boundaries",
     },
     "C13": {
         "level": "proof",
